@@ -68,6 +68,34 @@ def check_exact_lookup(p, report, rule):
                    "silently encoded as the next larger class"))
     if k == 0:
         raise AnalysisError("ExtLabelEncoder.transform: store of the codes not found")
+    # every value transform returns is the array that received the looked-up codes: a return that bypasses the lookup
+    # (labels that merely LOOK like codes handed back as codes) is not an encoding
+    coded = set()
+    for n in stores:
+        v = n.value
+        defs = [v]
+        if isinstance(v, ast.Name):
+            defs = [d.value for d in ast.walk(tf.node) if isinstance(d, ast.Assign)
+                    and any(isinstance(t, ast.Name) and t.id == v.id for t in d.targets)]
+        if any(isinstance(c, ast.Call) and (c01.callname(c) in ("searchsorted", "digitize") or (
+                isinstance(c.func, ast.Attribute) and c.func.attr == "transform")) for d in defs for c in ast.walk(d)):
+            b = n.targets[0]
+            while isinstance(b, ast.Subscript):
+                b = b.value
+            if isinstance(b, ast.Name):
+                coded.add(b.id)
+    for r in ast.walk(tf.node):
+        if isinstance(r, ast.Return) and r.value is not None:
+            v = r.value
+            while isinstance(v, ast.Call) and isinstance(v.func, ast.Attribute) and v.func.attr in ("reshape", "astype", "copy") \
+                    and isinstance(v.func.value, ast.Name):
+                v = v.func.value
+            ok = isinstance(v, ast.Name) and v.id in coded
+            report.add(rule, tf.qual, f"`{norm_stmt(r, 50)}` returns the looked-up codes", f"{tf.file}:{r.lineno}", ok,
+                       detail="the array filled from the lookup" if ok else
+                       "this return hands back something that did not go through the class lookup: integer labels that happen "
+                       "to lie in the code range (classes 1..K with class K not seen yet, sentinel -1) are taken for codes, and "
+                       "every probability column is shifted by one class")
 
 
 def run(p, report, tier):
